@@ -164,14 +164,14 @@ impl TxProposal {
             .try_fold(Coin::zero(), |acc, ada| acc.checked_add(&ada))
     }
 
-    pub(super) fn get_need_ada(&self) -> Result<Coin, JsError> {
+    pub(crate) fn get_need_ada(&self) -> Result<Coin, JsError> {
         let need_ada = self.get_total_ada_for_ouputs()?.checked_add(&self.fee)?;
         Ok(need_ada
             .checked_sub(&self.total_ada)
             .unwrap_or(Coin::zero()))
     }
 
-    pub(super) fn get_unused_ada(&self) -> Result<Coin, JsError> {
+    pub(crate) fn get_unused_ada(&self) -> Result<Coin, JsError> {
         let need_ada = self.get_total_ada_for_ouputs()?.checked_add(&self.fee)?;
         return Ok(self
             .total_ada
